@@ -14,20 +14,20 @@ def gen_matcher_text(d, g, simple_ok=True):
     return rm.render(g.top(), rm.Plain())
 
 
-def gen_script(d, specs, dialect, weights=None, list_heavy=False):
+def gen_script(d, specs, dialect, weights=None, list_heavy=False, unresolved=True):
     """items: ['line', text] | ['cmd', text]"""
     V = rm.vocab(specs)
     g = rm.Gen(d, V, 1)
     items = []
-    p_cmd = 0.35 if list_heavy else 0.25
+    p_cmd = 0.35 if list_heavy else 0.3
     for m in specs:
         while d.chance(p_cmd):
-            k = d.weighted([(3, 'filter'), (3, 'connection'), (8 if list_heavy else 3, 'list'), (2, 'breakpoint'), (1, 'other')])
+            k = d.weighted([(4, 'filter'), (5, 'connection'), (10 if list_heavy else 3, 'list'), (1, 'breakpoint'), (1, 'other')])
             if k == 'filter':
                 items.append(['cmd', d.choice(['filter !', 'f !', 'filter  !'])])
                 items.append(['cmd', d.choice(['filter ', 'fil ', 'f ', 'wlfilter ', 'wl filter ']) + gen_matcher_text(d, g)])
             elif k == 'connection':
-                items.append(['cmd', d.choice(['connection ', 'c ', 'conn ']) + d.choice(['A', 'B', 'C', 'a', 'b', 'all', 'all', 'Z', 'AA'])])
+                items.append(['cmd', d.choice(['connection ', 'c ', 'conn ']) + d.choice(['A', 'B', 'A', 'B', 'C', 'a', 'b', 'all', 'all', 'Z', 'AA'])])
             elif k == 'list':
                 mt = '' if d.chance(0.3) else (d.choice(MALFORMED) if d.chance(0.06) else gen_matcher_text(d, g))
                 cap = d.choice(['', '', ' ~ 1', ' ~ 2', '~3', ' ~ 0', ' ~ 50', '~1', ' ~5', ' ~ x'])
@@ -36,8 +36,20 @@ def gen_script(d, specs, dialect, weights=None, list_heavy=False):
                 items.append(['cmd', 'breakpoint ' + gen_matcher_text(d, g)])
             else:
                 items.append(['cmd', d.choice(['help', 'frobnicate', 'filter', 'breakpoint', 'connection', 'matcher wl_surface', 'h list', '', 'li'])])
-        items.append(['line', wire.render(m, dialect)])
+        items.append(['line', wire.render(m, dialect), m['conn']])
+        if unresolved and d.chance(0.08):
+            # a message on an object the log never showed being created (recorded and listed like any other)
+            sep = '@' if dialect == 'old' else '#'
+            tagtxt = ('<%s> ' % m['conn']) if m['conn'] is not None else ''
+            body = d.choice(['wl_output%s%d.scale(2)', 'wl_surface%s%d.commit()', 'zz_unknown%s%d.frob(1, "x")', 'wl_callback%s%d.done(7)']) % (sep, 900 + d.int(0, 5))
+            items.append(['line', wire.timestamp(m['t_us'], dialect) + tagtxt + d.choice(['', ' -> ']) + body, m['conn']])
     return items
+
+
+def seg_tag(s, seg):
+    it = s.io.items[seg.index]
+    t = it[2] if len(it) > 2 else None
+    return t if t is not None else 'PARSED'
 
 
 class Walker:
@@ -53,11 +65,13 @@ class Walker:
         self.sel = None                            # selected connection name
         self.recorded = []                         # real messages in arrival order
         self.conn_names = []                       # names of connections opened so far
+        self.tag_names = {}                        # connection tag -> name (by first appearance)
+        self.conn_of = {}                          # id(message) -> connection name
         self.mi = 0
         self.changes = dict(filter=0, selection=0, shown=0, hidden=0, listings=0)
 
     def pool(self):
-        return [r for r in self.recorded if self.sel is None or r.obj.connection.name() == self.sel]
+        return [r for r in self.recorded if self.sel is None or self.conn_of[id(r)] == self.sel]
 
     def parse(self, text):
         try:
@@ -74,7 +88,13 @@ class Walker:
         m = msgs[self.mi]
         self.mi += 1
         self.recorded.append(m)
-        name = m.obj.connection.name() if m.obj.connection is not None else None
+        tag = seg_tag(self.s, seg)
+        if tag not in self.tag_names:
+            self.tag_names[tag] = model.letters(len(self.tag_names), caps=True)
+        name = self.tag_names[tag]
+        self.conn_of[id(m)] = name
+        if m.obj.connection is not None and m.obj.connection.name() != name:
+            self.res.bad('message-on-wrong-connection', '%r attributed to %s, its tag says %s' % (seg.text, m.obj.connection.name(), name))
         if name not in self.conn_names:
             self.conn_names.append(name)
         exp = (self.sel is None or name == self.sel) and (not self.filter_never) and self.filter.matches(m)
